@@ -58,6 +58,7 @@ THEOREMS = [
     "Nix.C16.C16_handles_stateless",
     "Nix.C16.C16_guards_as_modelled",
     "Nix.C16.C16_calls_as_modelled",
+    "Nix.C16.C16_read_path_as_modelled",
 ]
 ASSUMPTIONS = [
     "cells are Python int / finite float / bool / str; floats are compared as the exact rationals they denote",
